@@ -897,7 +897,31 @@ pub fn judge(s: &Scenario, r: &RunResult) -> (Vec<Violation>, Vec<&'static str>)
     }
     let root_prefix = format!("{}/", r.root);
     let unroot = |p: &str| -> String { if let Some(rest) = p.strip_prefix(&root_prefix) { format!("@ROOT@/{rest}") } else { p.to_owned() } };
-    let faults = faults_of(&s.sim);
+    // Only a fault that was DELIVERED can oblige the compiler to anything: a fault planned for a call this
+    // implementation never makes (realpath of a file it identifies by device and inode, say) changes nothing.
+    let mut fired: BTreeSet<(&'static str, String)> = BTreeSet::new();
+    for e in &r.trace {
+        if let Ev::Fs { op, path, fault, .. } = &e.kind {
+            if fault == "errno" {
+                let cat = match op.as_str() {
+                    "open" | "read" => "open_or_read",
+                    "opendir" => "opendir",
+                    "readdir" => "readdir",
+                    "stat" | "lstat" => "stat",
+                    "realpath" => "realpath",
+                    _ => continue,
+                };
+                fired.insert((cat, path.clone()));
+            }
+        }
+    }
+    let mut faults = faults_of(&s.sim);
+    faults.open_or_read.retain(|p| fired.contains(&("open_or_read", p.clone())));
+    faults.opendir.retain(|p| fired.contains(&("opendir", p.clone())));
+    faults.readdir.retain(|p, _| fired.contains(&("readdir", p.clone())));
+    faults.stat.retain(|p| fired.contains(&("stat", p.clone())));
+    faults.realpath.retain(|p| fired.contains(&("realpath", p.clone())));
+    let fired_paths: BTreeSet<String> = fired.iter().map(|(_, p)| p.clone()).collect();
     // the canary is not part of the question
     let sources: Vec<String> = meta.sources.iter().filter(|p| Some(*p) != meta.canary.as_ref()).cloned().collect();
     let exp = expected(&s.world, &sources, &meta.references, &faults);
@@ -970,7 +994,24 @@ pub fn judge(s: &Scenario, r: &RunResult) -> (Vec<Violation>, Vec<&'static str>)
     }
 
     if !errors.is_empty() || r.exit != Exit::Code(0) {
-        let optional = |d: &Diag| -> bool { d.code == "E001" && path_candidates(&d.message).iter().any(|p| exp.optional_errors.iter().any(|o| *o == unroot(p))) };
+        // an E001 about a path on which a hard fault was delivered is always a legitimate answer
+        let about_fired = |p: &str| -> bool {
+            let p = unroot(p);
+            [fs.target_identity(&cwd, &p), fs.entry_identity(&cwd, &p)].into_iter().flatten().any(|c| fired_paths.iter().any(|f| *f == c || c.starts_with(&format!("{f}/")) || f.starts_with(&format!("{c}/"))))
+        };
+        let optional = |d: &Diag| -> bool { d.code == "E001" && path_candidates(&d.message).iter().any(|p| exp.optional_errors.iter().any(|o| *o == unroot(p)) || about_fired(p)) };
+        if meta.canary.is_some() {
+            // The generator of this case expected an I/O error and planted a file with a syntax error; no I/O error is
+            // due after all (the planned fault was never delivered, or not where the model thought), so the planted
+            // file is parsed and rejected - unless an optional I/O error stopped the compiler before parsing.
+            probes.push("planned fault not delivered: the planted syntax error is the expected outcome");
+            let rejected_by_parser = errors.iter().any(|d| d.code != "E001");
+            let stopped_by_optional_error = !errors.is_empty() && errors.iter().all(|d| optional(d));
+            if r.exit == Exit::Code(0) || spawns > 0 || !(rejected_by_parser || stopped_by_optional_error) {
+                vio.push(v("erroneous-program-not-rejected", format!("a listed file has a syntax error, yet exit {:?}, {spawns} generator(s) started, errors {:?}", r.exit, errors.iter().map(|d| format!("{}: {}", d.code, d.message)).collect::<Vec<_>>())));
+            }
+            return (vio, probes);
+        }
         if !errors.is_empty() && errors.iter().all(|d| optional(d)) && spawns == 0 {
             probes.push("un-stat-able plain file reported (optional)");
             return (vio, probes);
@@ -984,6 +1025,10 @@ pub fn judge(s: &Scenario, r: &RunResult) -> (Vec<Violation>, Vec<&'static str>)
         return (vio, probes);
     }
 
+    if meta.canary.is_some() {
+        vio.push(v("erroneous-program-not-rejected", format!("a listed file has a syntax error, yet exit {:?} without any error", r.exit)));
+        return (vio, probes);
+    }
     // the request as the capture generator received it
     let hist = generator_histories(&r.trace);
     let Some(h) = hist.iter().find(|h| h.program == CAPTURE && h.spawn_errno.is_none()) else {
